@@ -199,56 +199,71 @@ Proof. split; vm_compute; reflexivity. Qed.
 (* ------------------------------------------------------------------------------------------------ *)
 (* floor / ceiling / round                                                                          *)
 (* ------------------------------------------------------------------------------------------------ *)
-Lemma q_is_int_eq m : q_is_int m = true -> Qeq (inject_Z (Qfloor m)) m.
+(* a number is well formed when its magnitude is not negative *)
+Definition x_wf (x : xnum) : Prop := match x with XFin _ m => Qle 0 m | _ => True end.
+
+Lemma x_same_fin neg a b : Qeq a b -> x_same (XFin neg a) (XFin neg b) = true.
 Proof.
-  unfold q_is_int, Qfloor, Qeq. destruct m as [n d]. cbn [Qnum Qden inject_Z]. intro H.
-  assert (Hd : n mod Z.pos d = 0) by lia.
-  rewrite Z.mul_1_r. pose proof (Z.div_mod n (Z.pos d) ltac:(lia)). lia.
+  intro H. unfold x_same, x_eq, x_cmp, sq. destruct neg.
+  - rewrite (proj1 (Qeq_alt (Qopp a) (Qopp b))); [reflexivity|]. rewrite H. reflexivity.
+  - rewrite (proj1 (Qeq_alt a b) H). reflexivity.
 Qed.
 
-Lemma x_eq_fin_pos a b : Qeq a b -> x_eq (XFin false a) (XFin false b) = true.
-Proof. intro H. unfold x_eq, x_cmp, sq. rewrite (proj1 (Qeq_alt a b) H). reflexivity. Qed.
-
-(* for numbers that are not negative (below 2^63) the (long long) cast is the floor *)
-Theorem floor_impl_eq_spec_nonneg m : Qle 0 m -> Qfloor m <= ll_max ->
-  exists r, impl_floor (XFin false m) = Some r /\ x_eq r (spec_floor (XFin false m)) = true.
+(* floor() as coded (floorl of the signed value, /repo commit 0327904) is the floor of the recommendation for
+   every number: negative and positive, integral or not, zeros, infinities and NaN *)
+Theorem floor_impl_eq_spec x : x_wf x -> x_same (impl_floor x) (spec_floor x) = true.
 Proof.
-  intros Hm Hmax. unfold impl_floor, ll_cast, spec_floor.
-  assert (H0 : 0 <= Qfloor m).
-  { change 0 with (Qfloor 0). apply Qfloor_resp_le. exact Hm. }
-  unfold ll_min, ll_max in *.
-  replace ((- 2 ^ 63 <=? Qfloor m) && (Qfloor m <=? 2 ^ 63 - 1)) with true by lia.
-  eexists. split; [reflexivity|].
-  unfold x_of_Z. replace (Qfloor m <? 0) with false by lia. rewrite Z.abs_eq by lia.
-  destruct (q_is_int m) eqn:Hi.
-  - apply x_eq_fin_pos. apply q_is_int_eq. exact Hi.
-  - apply x_eq_fin_pos. reflexivity.
+  destruct x as [|neg|neg m]; try reflexivity.
+  - intros _. destruct neg; reflexivity.
+  - intro Hwf. cbn [x_wf] in Hwf. unfold impl_floor, spec_floor.
+    destruct m as [n d]. unfold q_is_zero, q_is_int, Qfloor, sq. cbn [Qnum Qden Qopp].
+    assert (Hn : 0 <= n) by (unfold Qle in Hwf; cbn in Hwf; lia).
+    destruct (n =? 0) eqn:Hz.
+    + assert (n = 0) by lia. subst n. rewrite Z.mod_0_l by lia. cbn. apply x_same_fin. reflexivity.
+    + assert (Hpos : 0 < n) by lia.
+      pose proof (Z.div_mod n (Z.pos d) ltac:(lia)) as Hdm.
+      pose proof (Z.mod_pos_bound n (Z.pos d) ltac:(lia)) as Hmb.
+      destruct neg.
+      * (* negative *)
+        change (- (n # d))%Q with ((- n) # d). cbv beta iota.
+        destruct (n mod Z.pos d =? 0) eqn:Hi.
+        -- assert (Hm0 : n mod Z.pos d = 0) by lia.
+           rewrite (Z.div_opp_l_z n (Z.pos d)) by lia.
+           assert (Hq : 0 < n / Z.pos d) by nia.
+           replace (- (n / Z.pos d) =? 0) with false by lia.
+           unfold x_of_Z. replace (- (n / Z.pos d) <? 0) with true by lia.
+           apply x_same_fin. rewrite Z.abs_neq by lia. rewrite Z.opp_involutive.
+           unfold Qeq. cbn [Qnum Qden inject_Z]. nia.
+        -- rewrite (Z.div_opp_l_nz n (Z.pos d)) by lia.
+           assert (Hq : 0 <= n / Z.pos d) by (apply Z.div_pos; lia).
+           replace (- (n / Z.pos d) - 1 =? 0) with false by lia.
+           unfold x_of_Z. replace (- (n / Z.pos d) - 1 <? 0) with true by lia.
+           apply x_same_fin. rewrite Z.abs_neq by lia.
+           replace (- (- (n / Z.pos d) - 1)) with (n / Z.pos d + 1) by lia. reflexivity.
+      * (* positive *)
+        destruct (n mod Z.pos d =? 0) eqn:Hi.
+        -- assert (Hm0 : n mod Z.pos d = 0) by lia.
+           assert (Hq : 0 < n / Z.pos d) by nia.
+           replace (n / Z.pos d =? 0) with false by lia.
+           unfold x_of_Z. replace (n / Z.pos d <? 0) with false by lia.
+           apply x_same_fin. rewrite Z.abs_eq by lia.
+           unfold Qeq. cbn [Qnum Qden inject_Z]. nia.
+        -- assert (Hq : 0 <= n / Z.pos d) by (apply Z.div_pos; lia).
+           destruct (n / Z.pos d =? 0) eqn:Hq0.
+           ++ assert (Hqz : n / Z.pos d = 0) by lia. rewrite Hqz. apply x_same_fin. reflexivity.
+           ++ unfold x_of_Z. replace (n / Z.pos d <? 0) with false by lia.
+              apply x_same_fin. rewrite Z.abs_eq by lia. reflexivity.
 Qed.
 
-(* negative numbers are truncated towards zero instead *)
-Example floor_negative_refuted :
-  impl_floor (XFin true (3 # 2)) = Some (x_of_Z (-1)) /\ spec_floor (XFin true (3 # 2)) = XFin true (inject_Z 2).
-Proof. split; vm_compute; reflexivity. Qed.
-Example floor_minus_half_refuted :
-  impl_floor (XFin true (1 # 2)) = Some (x_of_Z 0) /\ spec_floor (XFin true (1 # 2)) = XFin true (inject_Z 1).
-Proof. split; vm_compute; reflexivity. Qed.
-Example ceiling_negative_refuted :
-  impl_ceiling (XFin true (3 # 2)) = x_of_Z 0 /\ spec_ceiling (XFin true (3 # 2)) = XFin true (inject_Z 1).
-Proof. split; vm_compute; reflexivity. Qed.
-Example ceiling_minus_half_refuted :
-  impl_ceiling (XFin true (1 # 2)) = x_of_Z 1 /\ spec_ceiling (XFin true (1 # 2)) = XFin true (inject_Z 0).
-Proof. split; vm_compute; reflexivity. Qed.
-Example round_negative_refuted :
-  impl_round 64 (XFin true (16 # 10)) = x_of_Z (-1) /\ spec_round 53 (XFin true (16 # 10)) = XFin true (inject_Z 2).
-Proof. split; vm_compute; reflexivity. Qed.
-(* floor() of NaN / infinity fills no result at all (the caller's set is returned), ceiling() gives LLONG_MIN + 1 *)
-Example floor_nan_refuted : impl_floor XNaN = None /\ spec_floor XNaN = XNaN.
-Proof. split; reflexivity. Qed.
-Example ceiling_nan_refuted : impl_ceiling XNaN = x_of_Z (ll_min + 1) /\ spec_ceiling XNaN = XNaN.
-Proof. split; vm_compute; reflexivity. Qed.
-(* round(+0) is -0 as coded *)
-Example round_zero_refuted : impl_round 64 x_zero = XFin true 0 /\ spec_round 53 x_zero = x_zero.
-Proof. split; vm_compute; reflexivity. Qed.
+(* regression values of the recommendation (the code used to truncate towards zero, /repo commit 0327904) *)
+Example floor_ceiling_round_regression :
+  spec_floor (XFin true (3 # 2)) = XFin true (inject_Z 2) /\ spec_floor (XFin true (1 # 2)) = XFin true (inject_Z 1) /\
+  spec_ceiling (XFin true (3 # 2)) = XFin true (inject_Z 1) /\ spec_ceiling (XFin true (1 # 2)) = XFin true (inject_Z 0) /\
+  spec_round 53 (XFin true (16 # 10)) = XFin true (inject_Z 2) /\ spec_floor XNaN = XNaN /\ spec_ceiling XNaN = XNaN /\
+  spec_round 53 x_zero = x_zero /\
+  impl_floor (XFin true (3 # 2)) = x_of_Z (-2) /\ impl_ceiling (XFin true (3 # 2)) = x_of_Z (-1) /\
+  impl_floor (XFin true (1 # 2)) = x_of_Z (-1) /\ impl_ceiling (XFin true (1 # 2)) = XFin true 0 /\ impl_floor XNaN = XNaN.
+Proof. repeat split; vm_compute; reflexivity. Qed.
 
 (* ------------------------------------------------------------------------------------------------ *)
 (* string-length: bytes versus characters                                                           *)
@@ -277,6 +292,6 @@ Example string_length_nonascii_refuted :
   impl_string_length (B [195; 169]) = 2%nat /\ spec_string_length (B [195; 169]) = 1%nat.
 Proof. split; reflexivity. Qed.
 Example substring_nonascii_refuted :
-  impl_substring 64 (B [97; 195; 169; 98]) (x_of_Z 2) (Some (x_of_Z 1)) = B [195] /\
-  spec_substring 53 (B [97; 195; 169; 98]) (x_of_Z 2) (Some (x_of_Z 1)) = B [195; 169].
+  substring 64 true (B [97; 195; 169; 98]) (x_of_Z 2) (Some (x_of_Z 1)) = B [195] /\
+  substring 53 false (B [97; 195; 169; 98]) (x_of_Z 2) (Some (x_of_Z 1)) = B [195; 169].
 Proof. split; vm_compute; reflexivity. Qed.
